@@ -286,12 +286,24 @@ let parse_e2e (o : string) : e2e_op =
   | _ -> failwith ("bad scenario op " ^ o)
 
 (* back-pressure (ops B / b): while the services answer Pending to their readiness checks a worker receives nothing from its
-   connection queue (ServerWorker::poll, state Unavailable): connections dispatched to it are counted (accept-side counter) but their
-   service calls have not started.  In Model/Srv.v a Pick changes nothing but the place of the connection (w_queue -> w_picked), so
-   the oracle's state is the same whenever the picks happen; only what is SHOWN differs: service calls dispatched while blocked are
-   listed at the `b` that ends the episode, and the in-progress vector shown while blocked counts started calls only. *)
+   connection queue (ServerWorker::poll, state Unavailable).  The oracle does the same (Model/SrvE2E.v, parameter blk: no Pick while
+   it is set): connections dispatched to such a worker stay in w_queue — they count against its limit — and are picked up by the
+   settling that follows `b`.  What is shown per operation is derived from the oracle's states and events only:
+     service calls that started = connections dispatched in this operation or queued at a worker before it, that are not in a worker's
+                                  queue now (and were not lost with a dead worker's queue);
+     in progress per worker     = started and not finished = w_picked. *)
 let blocked = ref false
-let unstarted : (int * int * int) list ref = ref []
+let queued_prev : int list ref = ref []
+let where : (int, int * int) Hashtbl.t = Hashtbl.create 64     (* connection id -> (builder call of its listener, worker index) *)
+
+let queued_of (st : state) : int list =
+  List.concat_map (fun wk -> if wk.w_open then List.map (fun cn -> int_of_n cn.c_id) wk.w_queue else []) st.ws
+
+let show_act (st : state) : string =
+  let nw = List.fold_left (fun m wk -> max m (int_of_n wk.w_idx + 1)) 0 st.ws in
+  let act = List.init nw (fun i -> List.fold_left (fun a wk ->
+    if int_of_n wk.w_idx = i then a + List.length wk.w_picked else a) 0 st.ws) in
+  String.concat "." (List.map string_of_int act)
 
 let bld_step lz call_of (st, cid) (o : string) : (state * int) * string =
   if o = "H" then begin
@@ -299,17 +311,9 @@ let bld_step lz call_of (st, cid) (o : string) : (state * int) * string =
     let busy = List.exists (fun wk -> wk.w_queue <> [] || wk.w_picked <> []) st.ws in
     ((st, cid), if busy then "H=timeout" else "H=idle")
   end else
-  if o = "B" || o = "b" then begin
-    let started = if o = "b" then List.sort compare !unstarted else [] in
-    blocked := (o = "B");
-    if o = "b" then unstarted := [];
-    let nw = List.fold_left (fun m wk -> max m (int_of_n wk.w_idx + 1)) 0 st.ws in
-    let act = List.init nw (fun i -> List.fold_left (fun a wk ->
-      if int_of_n wk.w_idx = i then a + List.length wk.w_queue + List.length wk.w_picked else a) 0 st.ws
-      - List.length (List.filter (fun (_, _, w) -> w = i) !unstarted)) in
-    ((st, cid), Printf.sprintf "%s=%s/a%s" o
-       (String.concat "," (List.map (fun (c, cl, i) -> Printf.sprintf "%d@%dw%d" c cl i) started))
-       (String.concat "." (List.map string_of_int act)))
+  if o = "B" then begin
+    blocked := true;
+    ((st, cid), Printf.sprintf "B=/a%s" (show_act st))
   end else
   if o = "G" then begin
     (* graceful stop as the last op: waits for the connections in progress (C06); the accept/worker model of this driver only says
@@ -318,7 +322,9 @@ let bld_step lz call_of (st, cid) (o : string) : (state * int) * string =
     ((st, cid), if busy then "G=held" else "G=idle")
   end else begin
     let nev = List.length st.trace in
-    let op = parse_e2e o in
+    (* b: readiness returns — nothing else happens, the settling picks everything up *)
+    if o = "b" then blocked := false;
+    let op = if o = "b" then XAdvance N0 else parse_e2e o in
     (match op with
      | XFinish c when o.[0] = 'F' -> ()      (* F<cid>: close that client whether or not its service call has started (probes) *)
      | XFinish c -> if not (List.exists (fun wk -> List.exists (fun cn -> cn.c_id = c) wk.w_picked) st.ws)
@@ -326,9 +332,9 @@ let bld_step lz call_of (st, cid) (o : string) : (state * int) * string =
      | XKill _ | XKillConnect _ -> poisoned := (cid + 1) :: !poisoned
      | _ -> ());
     if o.[0] = 'A' then abortive := (cid + 1) :: !abortive;
-    (* Model/SrvE2E.v e2e_step_ab: the operation, settling, restarts, and a Finish for every abortive client's service call that
-       has started *)
-    let (st', next') = e2e_step_ab lz (List.map n_of_int !abortive) st (n_of_int (cid + 1)) op in
+    (* Model/SrvE2E.v e2e_step_ab: the operation, settling (without picks while blocked), restarts, and a Finish for every abortive
+       client's service call that has started *)
+    let (st', next') = e2e_step_ab lz !blocked (List.map n_of_int !abortive) st (n_of_int (cid + 1)) op in
     let cid' = int_of_n next' - 1 in
     let evs = take (List.length st'.trace - nev) st'.trace in
     (match op with
@@ -338,24 +344,25 @@ let bld_step lz call_of (st, cid) (o : string) : (state * int) * string =
     let panicked = List.filter_map (function
       | EvKilled g -> (match nth_error st'.ws g with Some wk -> Some (int_of_n wk.w_idx) | None -> None)
       | _ -> None) (List.rev evs) in
-    let served = List.filter_map (function
-      | EvDispatch (c, tok, _, idx, _) when not (List.mem (int_of_n c) !poisoned) -> Some (int_of_n c, call_of tok, int_of_n idx)
-      | _ -> None) evs in
-    let served = List.sort compare served in
-    let served = if !blocked then (unstarted := served @ !unstarted; []) else served in
+    List.iter (function
+      | EvDispatch (c, tok, _, idx, _) -> Hashtbl.replace where (int_of_n c) (call_of tok, int_of_n idx)
+      | _ -> ()) (List.rev evs);
+    let dispatched = List.filter_map (function EvDispatch (c, _, _, _, _) -> Some (int_of_n c) | _ -> None) evs in
+    let lost = List.filter_map (function EvLost c -> Some (int_of_n c) | _ -> None) evs in
+    let queued_now = queued_of st' in
+    let started = List.sort_uniq compare (List.filter (fun c ->
+      not (List.mem c queued_now) && not (List.mem c lost) && not (List.mem c !poisoned)) (dispatched @ !queued_prev)) in
+    queued_prev := queued_now;
+    let served = List.sort compare (List.map (fun c -> let (cl, i) = Hashtbl.find where c in (c, cl, i)) started) in
     (* a connection dropped for want of a live worker is seen by its client as a close without greeting; an abortive client (op A)
        is no longer there to see it *)
     let dropped = List.sort compare (List.filter_map (function
       | EvDropNoWorker c when not (List.mem (int_of_n c) !abortive) -> Some (int_of_n c) | _ -> None) evs) in
-    let nw = List.fold_left (fun m wk -> max m (int_of_n wk.w_idx + 1)) 0 st'.ws in
-    let act = List.init nw (fun i -> List.fold_left (fun a wk ->
-      if int_of_n wk.w_idx = i then a + List.length wk.w_queue + List.length wk.w_picked else a) 0 st'.ws
-      - List.length (List.filter (fun (_, _, w) -> w = i) !unstarted)) in
     ((st', cid'), Printf.sprintf "%s=%s/a%s" o
        (String.concat "," (List.map (fun i -> Printf.sprintf "x@w%d" i) panicked
                            @ List.map (fun (c, cl, i) -> Printf.sprintf "%d@%dw%d" c cl i) served
                            @ List.map (fun c -> Printf.sprintf "%d@drop" c) dropped))
-       (String.concat "." (List.map string_of_int act)))
+       (show_act st'))
   end
 
 let bld (line : string) : string =
@@ -364,7 +371,7 @@ let bld (line : string) : string =
   let lz = z_of_int l in
   let ops = List.filter (fun s -> s <> "") (String.split_on_char ' ' (List.assoc "ops" fields)) in
   let st0 = init (nat_of_int w) kinds in
-  poisoned := []; abortive := []; blocked := false; unstarted := [];
+  poisoned := []; abortive := []; blocked := false; queued_prev := []; Hashtbl.reset where;
   let (_, outs) = List.fold_left (fun (acc, outs) o ->
     let (acc', s) = bld_step lz call_of acc o in (acc', s :: outs)) ((st0, 0), []) ops in
   String.concat " ; " (List.rev outs)
@@ -381,13 +388,12 @@ let bldgen (line : string) : string =
   let has c = String.contains flags c in
   let nl = List.length kinds in
   let acc = ref (init (nat_of_int w) kinds, 0) in
-  poisoned := []; abortive := []; blocked := false; unstarted := [];
+  poisoned := []; abortive := []; blocked := false; queued_prev := []; Hashtbl.reset where;
   let out = ref [] in
   let emit o = let (a, _) = bld_step lz call_of !acc o in acc := a; out := o :: !out in
   for _ = 1 to geti "len" do
     let st = fst !acc in
     let picked = List.concat_map (fun wk -> List.map (fun cn -> int_of_n cn.c_id) wk.w_picked) st.ws in
-    let picked = List.filter (fun c -> not (List.exists (fun (u, _, _) -> u = c) !unstarted)) picked in
     let backoff = List.exists (fun ls -> ls.l_to <> None) st.lsts in
     let c = ref [] in
     let add wgt o = for _ = 1 to wgt do c := o :: !c done in
@@ -395,11 +401,12 @@ let bldgen (line : string) : string =
     (* not while an abortive client still waits in a backlog: its service call would be dispatched during the episode and end — in
        reality — only after it *)
     let abortive_waiting = List.exists (fun ls -> List.exists (fun cn -> List.mem (int_of_n cn) !abortive) ls.l_backlog) st.lsts in
-    if has 'b' then (if !blocked then add 3 `Unblock else if not backoff && not abortive_waiting then add 2 `Block);
+    ignore abortive_waiting;
+    if has 'b' then (if !blocked then add 3 `Unblock else if not backoff then add 2 `Block);
     (* an abortive client's service call ends by itself, at a moment of its own choosing: with several workers that moment decides
        which worker takes the next connection, so there the client is only used where it is dispatched at once and alone;
        with one worker every interleaving ends in the same settled state and it may also wait in a backlog (paused, saturated) *)
-    if has 'a' && not !blocked && (w = 1 || (not backoff && not st.paused && available st.av && List.for_all (fun ls -> ls.l_backlog = []) st.lsts))
+    if has 'a' && (w = 1 || not !blocked) && (w = 1 || (not backoff && not st.paused && available st.av && List.for_all (fun ls -> ls.l_backlog = []) st.lsts))
     then add (if w = 1 then 3 else 2) `A;
     if picked <> [] then add 5 `F;
     if has 'c' then (if st.paused then add 4 `R else add 1 `P; if rand 8 = 0 then add 1 (if st.paused then `P else `R));
